@@ -109,7 +109,8 @@ func (e *C09) manage(ctx *core.Ctx, now time.Time, el, iv time.Duration, inc int
 	simapi.SetNow(now)
 	s := simapi.NewStore()
 	c := s.NewClient("ers-controller", false)
-	mu := intstr.FromInt(1)
+	muN := 1 + r.Intn(3)
+	mu := intstr.FromInt(muN)
 	mpsf := intstr.FromInt(0)
 	strat := &v1.ExtendedDaemonSetSpecStrategy{RollingUpdate: v1.ExtendedDaemonSetSpecStrategyRollingUpdate{
 		MaxUnavailable: &mu, MaxPodSchedulerFailure: &mpsf, SlowStartAdditiveIncrease: &inc, MaxParallelPodCreation: &mp,
@@ -128,15 +129,25 @@ func (e *C09) manage(ctx *core.Ctx, now time.Time, el, iv time.Duration, inc int
 	}
 	params := &strategy.Parameters{EDSName: "eds", Strategy: strat, Replicaset: rs, ReplicaSetStatus: "active", NewStatus: rs.Status.DeepCopy(), Logger: logr.Discard(),
 		NodeByName: map[string]*strategy.NodeItem{}, PodByNodeName: map[*strategy.NodeItem]*corev1.Pod{}}
-	withPods := r.Intn(n + 1) / 2
+	withPods := r.Intn(n+1) / 2
+	oldUnavailable := 0
+	if r.Intn(3) == 0 {
+		oldUnavailable = r.Intn(withPods + 1)
+	}
 	for i := 0; i < n; i++ {
 		name := fmt.Sprintf("n%d", i)
 		ni := strategy.NewNodeItem(&corev1.Node{ObjectMeta: metav1.ObjectMeta{Name: name}}, nil)
 		params.NodeByName[name] = ni
 		if i < withPods {
+			// some of the existing pods are outdated and already unavailable: however many there are,
+			// at most maxUnavailable pods may be deleted for updating in one sync
+			h, ready := hashOK, true
+			if i < oldUnavailable {
+				h, ready = "OLD", false
+			}
 			pod := &corev1.Pod{ObjectMeta: metav1.ObjectMeta{Name: "pod-" + name, Namespace: "ns", CreationTimestamp: metav1.NewTime(now.Add(-time.Hour)),
-				Annotations: map[string]string{v1.MD5ExtendedDaemonSetAnnotationKey: hashOK}}, Spec: corev1.PodSpec{NodeName: name}}
-			pod.Status.Conditions = []corev1.PodCondition{kit.ReadyCond(true, now.Add(-time.Minute))}
+				Annotations: map[string]string{v1.MD5ExtendedDaemonSetAnnotationKey: h}}, Spec: corev1.PodSpec{NodeName: name}}
+			pod.Status.Conditions = []corev1.PodCondition{kit.ReadyCond(ready, now.Add(-time.Minute))}
 			params.PodByNodeName[ni] = pod
 		} else {
 			params.PodByNodeName[ni] = nil
@@ -200,7 +211,11 @@ func (e *C09) manage(ctx *core.Ctx, now time.Time, el, iv time.Duration, inc int
 		}
 		seen[ni.Node.Name] = true
 	}
-	if len(res.PodsToDelete) > 1 { // maxUnavailable = 1
+	desc["oldUnavailablePods"], desc["maxUnavailable"], desc["updateDeletes"] = oldUnavailable, muN, len(res.PodsToDelete)
+	if oldUnavailable > muN {
+		ctx.Count("C09.more-old-unavailable-than-budget")
+	}
+	if !paused && !frozen && len(res.PodsToDelete) > muN {
 		ctx.Violation("C09", "C09.delete-cap", attrs, desc)
 	}
 }
